@@ -148,6 +148,8 @@ pub struct Ctl {
     /// list ghost: id -> "in" (insert completed) / "del" (delete started)
     pub lst: std::collections::BTreeMap<usize, &'static str>,
     pub owner: std::collections::BTreeMap<usize, usize>,
+    /// `(name, argument, predicate kind, predicate bound)` of the call started by the line being recorded
+    pub started: Option<(&'static str, u64, bool, u64)>,
     keep: Vec<(Arc<VCollector>, Option<Arc<VQueue<u64>>>, Option<Arc<VList>>)>,
     pub is_list: bool,
 }
@@ -167,7 +169,7 @@ impl Ctl {
                 )
             })
             .collect();
-        Ctl { ws, sh: Vec::new(), out: Vec::new(), sc: 0, line: 0, panics: Vec::new(), site_hits: Default::default(), op_hits: Default::default(), prev_dump: Vec::new(), prev_head: 0, retired: Vec::new(), pending_retire: Vec::new(), lst: Default::default(), owner: Default::default(), keep: Vec::new(), is_list }
+        Ctl { ws, sh: Vec::new(), out: Vec::new(), sc: 0, line: 0, panics: Vec::new(), site_hits: Default::default(), op_hits: Default::default(), prev_dump: Vec::new(), prev_head: 0, retired: Vec::new(), pending_retire: Vec::new(), lst: Default::default(), owner: Default::default(), started: None, keep: Vec::new(), is_list }
     }
     pub fn nt(&self) -> usize {
         self.ws.len()
@@ -237,6 +239,15 @@ impl Ctl {
         }
         self.sh[t] = sh;
         self.ws[t].start(op.clone());
+        self.started = Some(match &op {
+            Op::Push(v) => ("push", *v, false, 0),
+            Op::Pop => ("pop", 0, false, 0),
+            Op::PopIf(pe, pb) => ("pop_if", 0, *pe, *pb),
+            Op::Insert(id) => ("insert", *id as u64, false, 0),
+            Op::Delete(id) => ("delete", *id as u64, false, 0),
+            Op::Traverse => ("traverse", 0, false, 0),
+            Op::Register => ("register", 0, false, 0),
+        });
         self.after(t, "start", &format!("{:?}", op));
     }
     pub fn step(&mut self, t: usize) {
@@ -334,8 +345,14 @@ impl Ctl {
         if let Some(r) = ret {
             let _ = write!(s, ",\"ret\":{{{}}}", r);
         }
+        if let Some((n, a, pe, pb)) = self.started.take() {
+            let _ = write!(s, ",\"opn\":\"{}\",\"arg\":{},\"pe\":{},\"pb\":{}", n, a, pe as u8, pb);
+        }
         let (h, tl, nodes) = self.qdump();
         let dangling = self.retired.contains(&tl) || self.retired.contains(&h);
+        // position of the tail pointer in the chain that starts at the head sentinel (0 = the sentinel itself, -1 = not in it)
+        let tailpos: i64 = if tl == h { 0 } else { nodes.iter().position(|x| x.0 == tl).map(|i| i as i64 + 1).unwrap_or(-1) };
+        let _ = write!(s, ",\"tailpos\":{},\"sites\":{:?}", tailpos, self.ws.iter().map(|w| w.at.unwrap_or(0)).collect::<Vec<_>>());
         let _ = write!(s, ",\"odd\":{},\"q\":{:?},\"tail_reachable\":{}", what.contains(" ODD "), nodes.iter().map(|x| x.1).collect::<Vec<_>>(), !dangling);
         let ld = match LIST.lock().unwrap().as_ref() {
             Some(l) => unsafe { l.dump() },
